@@ -11,10 +11,10 @@ BUILTIN_FUNCS = {
     "len", "isinstance", "issubclass", "all", "any", "sum", "type", "list", "tuple", "dict", "frozenset",
     "next", "iter", "enumerate", "zip", "getattr", "hasattr", "object", "float", "sorted", "map", "repr",
     "super", "bool", "int", "min", "max", "range", "id", "str", "set", "deque", "callable", "abs", "print",
-    "takewhile", "reversed",
+    "takewhile", "reversed", "heappush", "heappop", "SortedDict", "ExitStack",
     # spec-only
     "old", "implies", "iff", "ite", "forall", "exists", "at", "typeof", "dead", "live", "unchanged",
-    "seq_eq", "fresh_obj", "allocated", "is_instance_exact", "last_yield", "store", "anything",
+    "seq_eq", "fresh_obj", "allocated", "is_instance_exact", "last_yield", "store", "anything", "real",
 }
 
 
@@ -251,6 +251,8 @@ class ExprMixin:
         if vm is not None and vm.value:
             return k(z3.BoolVal(True), st) if self.find_repo_method(cn, "__bool__") is None else \
                 self.call_method(v, "__bool__", [], {}, st, lambda r, s: self.bool_of(r, s, k))
+        if ("abstract:%s.__bool__" % cn) in self.reg.contracts:
+            return self.call_method(v, "__bool__", [], {}, st, lambda r, s: self.bool_of(r, s, k))
         m = self.find_repo_method(cn, "__bool__")
         if m is not None and self.is_abstract_method(m):
             # abstract truth value: a volatile ghost (pure function of the heap within one atomic segment)
@@ -275,18 +277,25 @@ class ExprMixin:
 
     def dispatch_axioms(self, st, v, t, cn):
         """abstract truth = result of dynamic dispatch: for every modelled concrete subclass C,
-        cls_of(x) <= C  implies  truth[x] == C.__bool__(x)"""
+        cls_of(x) <= C  implies  truth[x] == C.__bool__(x).
+        Outside pure/quantified evaluation the fact is stated for the object at hand; inside (bound variables!) it is
+        stated once per heap state for all objects, as a closed fact that the enclosing evaluation exports."""
         if st.heap_override is not None:
             snap_id = id(st.heap_override)
         else:
             snap_id = (st.epoch, st.heap.get(self.ABSTRACT_TRUTH).get_id() if st.heap.get(self.ABSTRACT_TRUTH) is not None else 0)
-        key = ("dispatch", v.t.get_id(), snap_id, len(st.wrote))
+        universal = st.in_spec > 0
+        key = ("dispatch", "all" if universal else v.t.get_id(), snap_id, len(st.wrote))
         if key in st.touched or getattr(self, "_in_dispatch", False):
             return
         st.touched = st.touched | {key}
         self._in_dispatch = True
         try:
             base_ci = self.class_info(cn)
+            if universal:
+                arr = st.harr(self.ABSTRACT_TRUTH, z3.ArraySort(RefS, z3.BoolSort()))
+                x = fresh("dx", RefS)
+                tx = z3.Select(arr, x)
             for name, lst in list(self.repo.classes_by_name.items()):
                 for ci in lst:
                     if ci.name not in self.reg.models or ci is base_ci or base_ci not in self.repo.mro(ci):
@@ -294,13 +303,17 @@ class ExprMixin:
                     m = ci.methods.get("__bool__")
                     if m is None or self.is_abstract_method(m):
                         continue
-                    obj = Val(REF(ci.name), v.t)
+                    obj = Val(REF(ci.name), x if universal else v.t)
                     try:
                         b = self.pure_bool(st, lambda s, kk, m=m, obj=obj: self.call_repo(
                             m, [obj], {}, s, lambda r, s2: self.bool_of(r, s2, lambda bb, s3: kk(mk_bool(bb), s3)), self_val=obj))
                     except Unsupported:
                         continue
-                    st.assume(z3.Implies(subclass(cls_of(v.t), cls_const(ci.name)), t == b))
+                    if universal:
+                        st.assume_fact(z3.ForAll([x], z3.Implies(z3.And(x != NULL, subclass(cls_of(x), cls_const(ci.name))), tx == b),
+                                                 patterns=[tx]))
+                    else:
+                        st.assume(z3.Implies(subclass(cls_of(v.t), cls_const(ci.name)), t == b))
         finally:
             self._in_dispatch = False
 
